@@ -6,7 +6,7 @@ LOGASSIGN = "psf->parselog.indx, __CPROVER_object_upto (psf->parselog.buf, sizeo
 
 
 def U(name, entry, enforce, **kw):
-    d = {"name": "common." + name, "props": ["C03", "C15", "C19"], "harness": "common_header.harness.c", "entry": entry,
+    d = {"name": "common." + name, "props": ["C03", "C15"], "harness": "common_header.harness.c", "entry": entry,
          "enforce": enforce, "function": "common.c:" + enforce, "trusted": E, "timeout": 600,
          "drop_flags": ["--pointer-primitive-check"],
          "replace": ["psf_fread", "psf_fseek", "psf_log_printf", "psf_bump_header_allocation", "verif_pad_contract"]}
@@ -17,14 +17,14 @@ def U(name, entry, enforce, **kw):
 def units():
     return [
         U("psf_bump_header_allocation", "h_bump", "psf_bump_header_allocation", defines=["-DUNIT_BUMP", "-DREALLOC_KEEPS_OLD_BLOCK"],
-          replace=["verif_pad_contract"], props=["C03", "C19"],
+          replace=["verif_pad_contract"], props=["C03"],
           # psf_log_printf is variadic: neither its body nor (in this unit) its replacement survives DFCC (measured:
           # spurious write-set unwinding failure); its body is replaced by a generated no-op, i.e. the parse log is
           # outside what this unit establishes
           pre_gi_flags=["--remove-function-body", "psf_log_printf", "--generate-function-body", "psf_log_printf",
                         "--generate-function-body-options", "nondet-return"]),
         U("header_read", "h_header_read", "header_read"),
-        U("header_seek", "h_header_seek", "header_seek", props=["C03", "C14", "C15", "C19"],
+        U("header_seek", "h_header_seek", "header_seek", props=["C03", "C14", "C15"],
           loops={"header_seek": [{"loop_id": 0, "assigns_locals": True,
                                   "assigns": "psf->error, psf->pipeoffset, psf->syserr, __CPROVER_object_whole (&gio)",
                                   "invariants": "skip <= __CPROVER_loop_entry (skip)",
